@@ -15,6 +15,8 @@ The naming FORMAT is not pinned - only uniqueness, suffix and addresses.
      with a debug path, replace / copy the file from outside, load, build a breakpoint handler} x five spellings of the
      path (absolute Path / str / cwd-relative / through `sub/..` / through a symlink): every read returns the table
      that was written last.
+ (5) an stl program's label table after other assemblies of the same process (the stl under other / permuted short names,
+     another user short name): equal to the table a fresh process writes (names come from the program's own assembly).
 """
 import itertools
 import re
@@ -134,6 +136,24 @@ def check_program(name, slots, program, w, wd, sieve, stats, files):
                 bad('substring breakpoint resolves wrongly', {'substring': frag, 'addresses': sorted(exp)},
                     sorted(got) if isinstance(got, set) else got)
                 break
+        # exact-label sets that mix existing labels with labels the table does not have (sorting before, between and after them):
+        # exactly the existing ones resolve, whatever the order
+        srt = sorted(names)
+        picks = list(dict.fromkeys([srt[0], srt[len(srt) // 2], srt[-1]]))
+        for missing in (('!none',), ('mmm_none',), ('~none',), ('!none', 'Zz', '~none'), (srt[0] + '_', srt[-1][:-1] or 'q')):
+            missing = tuple(m for m in missing if m not in table)
+            for k in (1, 2, 3):
+                for sub in itertools.combinations(picks, k):
+                    try:
+                        got = set(get_breakpoint_handler(dbg, None, set(sub) | set(missing), None).breakpoints)
+                    except Exception as e:  # noqa
+                        got = f'{type(e).__name__}: {e}'
+                    stats['breakpoint_queries'] += 1
+                    exp = {table[n] for n in sub}
+                    if got != exp:
+                        bad('exact-label breakpoints next to unknown labels resolve wrongly', {'labels': sorted(sub), 'unknown': list(missing), 'addresses': sorted(exp)},
+                            sorted(got) if isinstance(got, set) else got)
+                        break
         # combined sets (two substrings, an address, an unknown label)
         fr = fragments(table)[:3]
         if len(fr) >= 2:
@@ -236,10 +256,51 @@ def work_histories(task):
     return stats, sieve.result(), None
 
 
+# ------------------------------------------------------------------ label tables of stl programs after other assemblies of the same process
+SCHEMES = ('default', 'lib', 'reversed', 'user-renamed')
+STL_PROGRAM = 'stl.startup\nstl.output "Hi"\nhex.print_uint 2, v, 1, 0\nstl.loop\nv: hex.vec 2, 0x5a\n'
+
+
+def assemble_scheme(scheme, w, wd, tag):
+    """assemble STL_PROGRAM next to the stl with the given short-name scheme -> label table"""
+    from flipjump.assembler import assembler
+    from flipjump.fjm.fjm_consts import FJMVersion
+    from flipjump.fjm.fjm_writer import Writer
+    from flipjump.utils.functions import get_file_tuples, load_debugging_labels
+    from fjv.asm import quiet
+    src = wd / f'{tag}.fj'
+    src.write_text(STL_PROGRAM)
+    tuples = get_file_tuples([str(src.absolute())], no_stl=False)
+    n = len(tuples) - 1
+    if scheme == 'lib':
+        tuples = [(f'zzlib{i}', t[1]) for i, t in enumerate(tuples[:n])] + tuples[n:]
+    elif scheme == 'reversed':
+        names = [t[0] for t in tuples[:n]][::-1]
+        tuples = [(nm, t[1]) for nm, t in zip(names, tuples[:n])] + tuples[n:]
+    elif scheme == 'user-renamed':
+        tuples = tuples[:n] + [('u9', tuples[n][1])]
+    out, dbg = wd / f'{tag}.fjm', wd / f'{tag}.fjd'
+    with quiet():
+        assembler.assemble(tuples, w, Writer(out, w, FJMVersion(1)), debugging_file_path=dbg, print_time=False)
+    return load_debugging_labels(dbg)
+
+
+def work_stl_tables(task):
+    from fjv.enginecheck import scratch
+    _, w, history = task
+    wd = scratch()
+    table = None
+    for k, scheme in enumerate(history):
+        table = assemble_scheme(scheme, w, wd, f't{k}')
+    return ('stl-table', w, history, table)
+
+
 def work(task):
     from fjv.enginecheck import scratch
     from fjv import gen_macros
     kind = task[0]
+    if kind == 'stl-tables':
+        return work_stl_tables(task)
     if kind == 'histories':
         return work_histories(task)
     sieve = Sieve(PROP)
@@ -275,6 +336,14 @@ def replay(args):
     from fjv import gen_macros
     rec = load_replay(args.replay)
     c = rec['case']
+    if 'program' in c and 'history' in c:
+        got = {t[2]: t[3] for t in pmap(work, [('stl-tables', c['w'], tuple(c['history'])), ('stl-tables', c['w'], tuple(c['history'][-1:]))], 2, on_crash='raise')}
+        if got[tuple(c['history'])] != got[tuple(c['history'][-1:])]:
+            print('PROBLEM: the table after', c['history'], 'differs from the fresh one')
+            print(f'VIOLATION property={PROP} replay={args.replay}')
+            return 1
+        print('replay: ok')
+        return 0
     if 'history_idx' in c:
         def one(_):
             return run_history(tuple(c['history_idx']), scratch() / 'replay')
@@ -314,12 +383,34 @@ def main():
     hist_depth = 5 if args.tier == 'thorough' else 4
     tasks += [('histories', hist_depth, f) for f in range(len(HIST_OPS)) if HIST_OPS[f][0] not in ('load', 'handler')]
     total, samples = {}, []
-    for stats, res, sample in pmap(work, tasks, args.jobs):
+    stl_widths = (64, 32) if args.tier == 'thorough' else (64,)
+    hist_len = 3 if args.tier == 'thorough' else 2
+    for w in stl_widths:
+        for L in range(1, hist_len + 1):
+            tasks += [('stl-tables', w, h) for h in itertools.product(SCHEMES, repeat=L)]
+    stl_tables = {}
+    for item in pmap(work, tasks, args.jobs):
+        if item[0] == 'stl-table':
+            stl_tables[(item[1], item[2])] = item[3]
+            continue
+        stats, res, sample = item
         for k, v in stats.items():
             total[k] = total.get(k, 0) + v
         run.merge(res)
         if sample and len(samples) < 3:
             samples.append(sample)
+    # the table of an stl program names its labels by ITS OWN assembly (file short names, expansion paths): equal to the fresh-process one
+    for (w, history), table in sorted(stl_tables.items()):
+        fresh = stl_tables[(w, history[-1:])]
+        total['stl_table_histories'] = total.get('stl_table_histories', 0) + 1
+        if len(history) > 1 and table != fresh:
+            only_h = sorted(set(table) - set(fresh))[:3]
+            only_f = sorted(set(fresh) - set(table))[:3]
+            moved = [n for n in table if n in fresh and table[n] != fresh[n]][:3]
+            run.report({'kind': 'label table of an stl program depends on earlier assemblies of the process', 'class': f'stl table after {history[:-1]}',
+                        'case': {'w': w, 'history': list(history), 'program': STL_PROGRAM}, 'expected': {'names only in the fresh table': only_f},
+                        'observed': {'names only after the history': only_h, 'moved': moved},
+                        'summary': f'w={w} short-name schemes {list(history)}: the last table differs from the one a fresh process writes ({len(set(table) ^ set(fresh))} names)'})
     vac = [k for k in ('instances', 'breakpoint_queries') if total.get(k, 0) < 1000]
     if vac:
         print(f'CHECK-INTERNAL-ERROR vacuous: {vac}', file=sys.stderr)
@@ -331,7 +422,7 @@ def main():
         'samples': samples or [{'note': 'none'}],
         'table_entries_seen': total.get('labels', 0),
         'breakpoint_resolutions_checked': total.get('breakpoint_queries', 0),
-        'file_histories': total.get('histories', 0), 'file_history_loads_checked': total.get('history_loads', 0),
+        'stl_table_histories': total.get('stl_table_histories', 0), 'file_histories': total.get('histories', 0), 'file_history_loads_checked': total.get('history_loads', 0),
         'bounds': {'programs': 'the C03 skeleton family x all identifier assignments, 1 and 2 files', 'widths': list(widths),
                    'file_histories': f'every sequence of <= {hist_depth} operations over {len(HIST_OPS)} (save / assemble / replace / copy / load / handler x 5 spellings of one path) that starts with a write and ends with a read'},
         'exhaustive': not vac,
